@@ -43,6 +43,27 @@ type StakingLedger struct {
 	Denom      string
 	Writes     int
 	PeriodIncr int
+	Guard      func() // called at the start of every mutating entry point (harness hook)
+	FailAt     int    // the FailAt-th mutating call (1-based) fails; 0 = never
+	Fired      bool   // the injected failure was hit
+	mutations  int
+}
+
+type ledgerError string
+
+func (e ledgerError) Error() string { return string(e) }
+
+// mutate is the common prologue of every mutating entry point.
+func (l *StakingLedger) mutate() error {
+	if l.Guard != nil {
+		l.Guard()
+	}
+	l.mutations++
+	if l.FailAt > 0 && l.mutations == l.FailAt {
+		l.Fired = true
+		return ledgerError("staking ledger: injected failure")
+	}
+	return nil
 }
 
 func NewStakingLedger(val stakingtypes.Validator, valAddr sdk.ValAddress, bank *Bank, denom string) *StakingLedger {
@@ -92,6 +113,9 @@ func (l *StakingLedger) GetDelegation(ctx context.Context, del sdk.AccAddress, v
 }
 
 func (l *StakingLedger) SetDelegation(ctx context.Context, d stakingtypes.Delegation) error {
+	if err := l.mutate(); err != nil {
+		return err
+	}
 	del, err := sdk.AccAddressFromBech32(d.DelegatorAddress)
 	if err != nil {
 		return err
@@ -106,6 +130,9 @@ func (l *StakingLedger) SetDelegation(ctx context.Context, d stakingtypes.Delega
 }
 
 func (l *StakingLedger) RemoveDelegation(ctx context.Context, d stakingtypes.Delegation) error {
+	if err := l.mutate(); err != nil {
+		return err
+	}
 	del, err := sdk.AccAddressFromBech32(d.DelegatorAddress)
 	if err != nil {
 		return err
@@ -143,6 +170,9 @@ func (l *StakingLedger) GetAllowance(ctx sdk.Context, val sdk.ValAddress, owner,
 }
 
 func (l *StakingLedger) SetAllowance(ctx sdk.Context, val sdk.ValAddress, owner, spender sdk.AccAddress, shares *big.Int) {
+	if l.Guard != nil {
+		l.Guard()
+	}
 	l.Writes++
 	if i := l.findAllow(owner, spender); i >= 0 {
 		l.allow[i].amt = new(big.Int).Set(shares)
@@ -158,6 +188,9 @@ func (l *StakingLedger) GetDelegatorWithdrawAddr(ctx context.Context, del sdk.Ac
 }
 
 func (l *StakingLedger) IncrementValidatorPeriod(ctx context.Context, val stakingtypes.ValidatorI) (uint64, error) {
+	if err := l.mutate(); err != nil {
+		return 0, err
+	}
 	l.PeriodIncr++
 	l.RefCount[l.Period] = 1
 	l.Period++
@@ -188,6 +221,9 @@ func (l *StakingLedger) GetDelegatorStartingInfo(ctx context.Context, val sdk.Va
 }
 
 func (l *StakingLedger) SetDelegatorStartingInfo(ctx context.Context, val sdk.ValAddress, del sdk.AccAddress, info distrtypes.DelegatorStartingInfo) error {
+	if err := l.mutate(); err != nil {
+		return err
+	}
 	l.Writes++
 	if i := l.findStart(del); i >= 0 {
 		l.starts[i].info = info
@@ -198,6 +234,9 @@ func (l *StakingLedger) SetDelegatorStartingInfo(ctx context.Context, val sdk.Va
 }
 
 func (l *StakingLedger) DeleteDelegatorStartingInfo(ctx context.Context, val sdk.ValAddress, del sdk.AccAddress) error {
+	if err := l.mutate(); err != nil {
+		return err
+	}
 	l.Writes++
 	if i := l.findStart(del); i >= 0 {
 		l.starts = append(l.starts[:i:i], l.starts[i+1:]...)
@@ -214,12 +253,18 @@ func (l *StakingLedger) GetValidatorHistoricalRewards(ctx context.Context, val s
 }
 
 func (l *StakingLedger) SetValidatorHistoricalRewards(ctx context.Context, val sdk.ValAddress, period uint64, r distrtypes.ValidatorHistoricalRewards) error {
+	if err := l.mutate(); err != nil {
+		return err
+	}
 	l.Writes++
 	l.RefCount[period] = r.ReferenceCount
 	return nil
 }
 
 func (l *StakingLedger) DeleteValidatorHistoricalReward(ctx context.Context, val sdk.ValAddress, period uint64) error {
+	if err := l.mutate(); err != nil {
+		return err
+	}
 	l.Writes++
 	delete(l.RefCount, period)
 	return nil
@@ -233,6 +278,9 @@ func (l *StakingLedger) CalculateDelegationRewards(ctx context.Context, val stak
 // the delegator and records the call. The real keeper also re-bases the delegator's starting
 // info on the new period; the model keeps the starting info as it is.
 func (l *StakingLedger) WithdrawDelegatorReward(ctx context.Context, msg *distrtypes.MsgWithdrawDelegatorReward) (*distrtypes.MsgWithdrawDelegatorRewardResponse, error) {
+	if err := l.mutate(); err != nil {
+		return nil, err
+	}
 	del, err := sdk.AccAddressFromBech32(msg.DelegatorAddress)
 	if err != nil {
 		return nil, err
@@ -283,4 +331,33 @@ func (l *StakingLedger) Restore(s *LedgerSnap) {
 	}
 	l.Period = s.period
 	l.Withdrawn = l.Withdrawn[:s.withdrawn]
+}
+
+// SameAs reports whether the ledger equals the snapshot (delegations, allowances, starting infos,
+// reference counts, period), without branching on individual bytes of amounts.
+func (l *StakingLedger) SameAs(s *LedgerSnap) bool {
+	if len(l.dels) != len(s.dels) || len(l.allow) != len(s.allow) || len(l.starts) != len(s.starts) || l.Period != s.period || len(l.RefCount) != len(s.refCount) {
+		return false
+	}
+	for i := range l.dels {
+		if !bytes.Equal(l.dels[i].del, s.dels[i].del) || !l.dels[i].shares.Equal(s.dels[i].shares) {
+			return false
+		}
+	}
+	for i := range l.allow {
+		if !bytes.Equal(l.allow[i].owner, s.allow[i].owner) || !bytes.Equal(l.allow[i].spender, s.allow[i].spender) || l.allow[i].amt.Cmp(s.allow[i].amt) != 0 {
+			return false
+		}
+	}
+	for i := range l.starts {
+		if !bytes.Equal(l.starts[i].del, s.starts[i].del) || l.starts[i].info.PreviousPeriod != s.starts[i].info.PreviousPeriod || !l.starts[i].info.Stake.Equal(s.starts[i].info.Stake) {
+			return false
+		}
+	}
+	for k, v := range s.refCount {
+		if l.RefCount[k] != v {
+			return false
+		}
+	}
+	return true
 }
